@@ -90,8 +90,25 @@ def relabelRec {β : Type} (p : List Nat) (r : ModeRec β) : ModeRec β := { r w
 def relabelH {β : Type} [Zero β] (p : List Nat) (st : HState β) : HState β :=
   ⟨permuteD p st.Y, gatherD st.factors p [], gather st.ranks p, st.trace.map (relabelRec p)⟩
 
+/-- the state of Tucker-ALS's mode loop of the relabelled problem -/
+def relabelSw {β : Type} [Zero β] (p : List Nat) (st : SweepSt β) : SweepSt β :=
+  ⟨gatherD st.U p [], st.Utilde.map fun z => (permuteD p z.1, (invPerm p).getD z.2 0), st.calls⟩
+
+/-- an executed pass of Tucker-ALS of the relabelled problem -/
+def relabelIter {β : Type} [Zero β] (p : List Nat) (r : IterRec β) : IterRec β :=
+  ⟨r.iteration, gatherD r.factors p [], permuteD p r.core, r.normresidual, r.fit, r.fitchange⟩
+
+/-- the start of Tucker-ALS of the relabelled problem -/
+def relabelTInit {β : Type} (p : List Nat) : Init β → Init β
+  | .list Us => .list (gatherD Us p [])
+  | .str s => .str s
+
 /-- the Tucker tensor with core and factor list relabelled -/
 def relabelT {β : Type} [Zero β] (p : List Nat) (T : Ttensor β) : Ttensor β :=
   ⟨permuteD p T.core, gatherD T.factors p []⟩
+
+/-- what `tucker_als` returns for the relabelled problem -/
+def relabelOut {β : Type} [Zero β] (p : List Nat) (o : TaOut β) : TaOut β :=
+  ⟨relabelT p o.solution, gatherD o.uinit p [], o.iters, o.normresidual, o.fit⟩
 
 end Pyttb.Tk
